@@ -1142,7 +1142,24 @@ fn main() {
                 let mut starts: Vec<u64> = Vec::new();
                 let mut done = 1;
                 while done < ops {
-                    match next() % 4 {
+                    // every fourth thread mostly hammers no-op removes between its own draws
+                    let sel = if t % 4 == 3 && next() % 8 != 0 { 4 } else { next() % 5 };
+                    if t % 4 == 3 && sel == 4 {
+                        u = UnwinderX86_64::new();
+                        starts.clear();
+                        out.push(u.verif_modules_generation());
+                        done += 1;
+                    }
+                    match sel {
+                        4 => {
+                            // removing a start that was never registered changes nothing - and must not disturb
+                            // the identities other threads are drawing at the same moment
+                            let before = u.verif_modules_generation();
+                            for _ in 0..8 {
+                                u.remove_module(0xdead0000 + (next() & 0xfff));
+                            }
+                            assert_eq!(before, u.verif_modules_generation());
+                        }
                         0 => {
                             u = UnwinderX86_64::new();
                             starts.clear();
